@@ -86,6 +86,7 @@ class Ctx:
         self.samples = []
         self.failures = {}  # bucket -> dict(case, clause, msg, sig, size)
         self.harness_errors = []
+        self.timeouts = []
         self.evaluations = 0
 
     def count(self, key: str, n: int = 1):
@@ -111,6 +112,7 @@ class Ctx:
             'samples': self.samples,
             'failures': self.failures,
             'harness_errors': self.harness_errors,
+            'timeouts': self.timeouts,
         }
 
 
@@ -154,6 +156,9 @@ def run_case(mod, case, ctx: Ctx, case_timeout: float) -> None:
 
     except CaseTimeout:
         ctx.count('case_timeouts')
+
+        if len(ctx.timeouts) < 2:
+            ctx.timeouts.append(json.loads(json.dumps(case, default=repr)))
 
         handler = getattr(mod, 'on_timeout', None)
 
@@ -453,7 +458,10 @@ def main(argv=None) -> int:
     failures = {}
     harness_errors = []
 
+    timeout_cases = []
+
     for r in results:
+        timeout_cases.extend(r.get('timeouts', []))
         counters.update(r['counters'])
         nontrivial.update(r['nontrivial'])
         harness_errors.extend(r['harness_errors'])
@@ -524,6 +532,7 @@ def main(argv=None) -> int:
         'exhaustive': bool(getattr(mod, 'exhaustive', lambda tier: False)(args.tier)) and not cut,
         'shards': nshards,
         'counters': dict(sorted(counters.items())),
+        'timeout_cases(inconclusive, first few)': timeout_cases[:3],
         'known_findings_reproduced': known_still,
         'failures_matching_known_findings': n_known_hits,
     }
